@@ -15,7 +15,9 @@ from .runner import Discard, HarnessError
 
 RELS = [0.001, 0.01, 0.05]
 ABS_COVOUT = [0.001, 0.01, 0.03]
-UNC_CLASSES = ["none", "zero", "zero", "par", "par", "par", "par", "prog", "prog", "both", "both", "both", "init", "init", "init"]
+UNC_CLASSES = ["none", "zero", "zero", "par", "par", "par", "par", "prog", "prog", "both", "both", "both", "init", "init", "init", "edge", "edge", "edge"]
+# "edge": a parset/both case in which 1-3 inputs get an edge best estimate with a positive sigma: exactly 0 entered as a constant,
+# exactly 0 entered in a year column, exactly 1, or a sigma twice the value (draws change sign)
 # "init": sigma on initial stocks, so large that a fraction of the draws is rejected (BadInitialization -> resampled).
 # sigma = (distance of the value to the nearest value that makes the initialisation inconsistent) / z, z = normal quantile
 INIT_Z = [0.8416, 0.5244, 0.2533]  # one-sided rejection probability 0.2, 0.3, 0.4
@@ -115,7 +117,72 @@ def spec_entries(spec):
             v = _vals(e)
             if v and min(abs(x) for x in v) > 0:
                 out.append(("transfer", e, max(abs(x) for x in v), False))
+    for name in sorted(data.get("iw") or {}):
+        for key in sorted(data["iw"][name]):
+            e = data["iw"][name][key]
+            if isinstance(e, dict) and _vals(e) and min(abs(x) for x in _vals(e)) > 0:
+                out.append(("interaction", e, max(abs(x) for x in _vals(e)), False))
     return out
+
+
+EDGE_KINDS = ["zero-const", "zero-year", "one", "sign-change"]
+
+
+def edge_edits(draw, spec):
+    """give 1-3 inputs an edge best estimate and a positive sigma (in place). Kinds that would make the model itself ill-defined
+    (zero/negative durations, unit costs and saturations) are not generated."""
+    pars = {p["name"]: p for p in spec["pars"]}
+    comps = {c["name"]: c for c in spec["comps"]}
+    data = spec["data"]
+    start = float(spec["settings"]["start"])
+    cands = []  # (dict, allowed edge kinds, sigma choices for an absolute sigma)
+    for q in sorted(data["q"]):
+        for pop in sorted(data["q"][q]):
+            d = data["q"][q][pop]
+            if q in pars and not pars[q].get("timed"):
+                cands.append((d, ["one"] if pars[q].get("fmt") == "duration" else EDGE_KINDS, [0.05, 0.2]))
+            elif q in comps and comps[q]["kind"] == "ord" and comps[q].get("db"):
+                cands.append((d, EDGE_KINDS, [5.0, 50.0]))
+    for tr in data.get("tr") or []:
+        for key in sorted(tr["e"]):
+            e = tr["e"][key]
+            cands.append((e, ["one"] if e.get("u") == "duration" else EDGE_KINDS, [0.05, 0.2]))
+    for name in sorted(data.get("iw") or {}):
+        for key in sorted(data["iw"][name]):
+            e = data["iw"][name][key]
+            if isinstance(e, dict):
+                cands.append((e, EDGE_KINDS, [0.05, 0.2]))
+    if spec.get("progs"):
+        for p in spec["progs"]["progs"]:
+            cands.append((p["spend"], EDGE_KINDS, [10.0, 100.0]))
+            if p.get("cap"):
+                cands.append((p["cap"], ["zero-const", "one"], [1.0, 10.0]))
+    if not cands:
+        return []
+    done = []
+    for i in draw(st.lists(st.integers(0, len(cands) - 1), min_size=1, max_size=3, unique=True)):
+        d, kinds, sig = cands[i]
+        kind = draw(st.sampled_from(kinds))
+        v = _vals(d)
+        if kind == "sign-change":
+            scale = max([abs(x) for x in v] or [0.0])
+            d["s"] = 2.0 * scale if scale > 0 else draw(st.sampled_from(sig))
+        else:
+            for k in ("a", "t", "v"):
+                d.pop(k, None)
+            if kind == "zero-year":
+                d["t"], d["v"] = [start], [0.0]
+            else:
+                d["a"] = 0.0 if kind == "zero-const" else 1.0
+            d["s"] = draw(st.sampled_from(sig))
+        done.append(kind)
+    if spec.get("progs") and spec["progs"]["covouts"] and draw(st.booleans()):
+        c = spec["progs"]["covouts"][draw(st.integers(0, len(spec["progs"]["covouts"]) - 1))]
+        k = sorted(c["progs"])[0]
+        c["progs"][k] = draw(st.sampled_from([0.0, 1.0]))
+        c["sigma"] = draw(st.sampled_from(ABS_COVOUT))
+        done.append("outcome-%g" % c["progs"][k])
+    return done
 
 
 def init_entries(spec):
@@ -149,6 +216,9 @@ def assign_sigmas(draw, spec, unc):
     """write drawn sigmas into (a copy of) the spec. unc in none|zero|par|prog|both. returns (spec, unc actually realised)"""
     spec = copy.deepcopy(spec)
     has_progs = bool(spec.get("progs"))
+    edge = unc == "edge"
+    if edge:
+        unc = draw(st.sampled_from(["par", "both"]))
     if unc in ("prog", "both") and not has_progs:
         unc = "par"
     ents = spec_entries(spec)
@@ -228,6 +298,9 @@ def assign_sigmas(draw, spec, unc):
             spec["progs"]["covouts"][0]["sigma"] = 0.0
         else:
             unc = "none"
+    if edge:
+        spec["c17_edge"] = edge_edits(draw, spec)
+        unc = "edge"
     return spec, unc
 
 
@@ -238,6 +311,7 @@ def spec_unc(spec):
     eff_par = eff_par or any((d.get("s") or 0) > 0 for d, _ in init_entries(spec))  # initial size of an ordinary compartment = value + delta
     data = spec["data"]
     ds = [d for bypop in data["q"].values() for d in bypop.values()] + [e for tr in data.get("tr") or [] for e in tr["e"].values()]
+    ds += [e for w in (data.get("iw") or {}).values() for e in w.values() if isinstance(e, dict)]
     for d in ds:
         s = d.get("s")
         if s is not None:
@@ -301,7 +375,7 @@ def materialise(src):
         explicit = bool(spec.get("progs")) and any(c.get("imp") for c in spec["progs"]["covouts"])
         explicit_sigma = bool(spec.get("progs")) and any(c.get("imp") and c.get("sigma", 0.0) is not None for c in spec["progs"]["covouts"])
         big_init = any((d.get("s") or 0) > 0.5 * max(v, 1e-300) for d, v in init_entries(spec))
-        return {"P": b["P"], "ps": b["ps"], "pg": b["progset"], "ins": b["instructions"], "ppos": ppos, "gpos": gpos, "zero": zero, "explicit": explicit, "explicit_sigma": explicit_sigma, "eff_par": eff_par, "init": big_init}
+        return {"P": b["P"], "ps": b["ps"], "pg": b["progset"], "ins": b["instructions"], "ppos": ppos, "gpos": gpos, "zero": zero, "explicit": explicit, "explicit_sigma": explicit_sigma, "eff_par": eff_par, "init": big_init, "edge": bool(spec.get("c17_edge"))}
     P = _lib(src["name"])
     ps = P.parsets[0]
     ppos = gpos = zero = explicit = explicit_sigma = eff_par = False
@@ -320,6 +394,21 @@ def materialise(src):
             # one-to-one visible in the results: untargeted data parameter, positive values far (>= 20 sigma) above a lower limit of 0
             if ts.sigma > 0 and name not in targeted and (hi is None or hi != hi) and (lo is None or lo != lo or lo <= 0) and min(vals) > 0:
                 eff_par = True
+    edge = False
+    for i, kind, sig in src.get("edge", []):
+        name, pop = cands[i % len(cands)]
+        ts = ps.pars[name].ts[pop]
+        if kind == "sign-change":
+            ts.sigma = 2.0 * max(abs(float(v)) for v in list(ts.vals) + ([ts.assumption] if ts.assumption is not None else []))
+        else:
+            if kind == "zero-year":
+                ts.vals = [0.0 for _ in ts.vals] if ts.vals else [0.0]
+                ts.t = list(ts.t) if ts.t else [float(P.settings.sim_start)]
+                ts.assumption = None
+            else:
+                ts.t, ts.vals, ts.assumption = [], [], (0.0 if kind == "zero-const" else 1.0)
+            ts.sigma = float(sig)
+        ppos = edge = True
     # initial stocks (compartment / characteristic databook entries): sigma = distance to the nearest other initial stock (or to 0) / z
     big_init = False
     icands = sorted((par.name, pop) for par in ps.all_pars() if par.name not in fpars and par.name in ps.pars for pop, ts in par.ts.items() if ts.has_data and len(ts.vals) >= 1)
@@ -356,7 +445,55 @@ def materialise(src):
             pg.covouts[key] = at.Covout(par=old.par, pop=old.pop, progs=dict(old.progs), cov_interaction=old.cov_interaction, imp_interaction=imps, uncertainty=sigma, baseline=old.baseline)
             if sigma is not None:
                 gpos, zero = (gpos or sigma > 0), (zero or sigma == 0)
-    return {"P": P, "ps": ps, "pg": pg, "ins": ins, "ppos": ppos, "gpos": gpos, "zero": zero, "explicit": explicit, "explicit_sigma": explicit_sigma, "eff_par": eff_par, "init": big_init}
+    return {"P": P, "ps": ps, "pg": pg, "ins": ins, "ppos": ppos, "gpos": gpos, "zero": zero, "explicit": explicit, "explicit_sigma": explicit_sigma, "eff_par": eff_par, "init": big_init, "edge": edge}
+
+
+def quantity_values(ps, pg):
+    """every input TimeSeries / outcome that sample() may perturb: {key: (kind of input, sigma, value, value class)} with
+    value = (assumption, tuple of year values) resp. the outcome number.  Keys are stable across copies."""
+    out = {}
+    fw_pars = None
+
+    def vclass(sigma, vals):
+        if any(v == 0 for v in vals):
+            return "zero"
+        if any(v == 1 for v in vals):
+            return "one"
+        if sigma is not None and any(sigma > abs(v) for v in vals):
+            return "sigma>|value|"
+        return "ordinary"
+
+    def ts_entry(key, kind, ts):
+        if not ts.has_data:
+            return
+        vals = ([float(ts.assumption)] if ts.assumption is not None else []) + [float(v) for v in ts.vals]
+        cls = vclass(ts.sigma, vals)
+        if cls == "zero":
+            cls = "zero-constant" if (ts.assumption is not None and float(ts.assumption) == 0) else "zero-in-year-column"
+        out[key] = (kind, ts.sigma, (None if ts.assumption is None else float(ts.assumption), tuple(float(v) for v in ts.vals)), cls)
+
+    for name, par in ps.pars.items():
+        for pop, ts in par.ts.items():
+            ts_entry(("parameter", name, pop), "databook-quantity", ts)
+    for name, byfrom in ps.transfers.items():
+        for frm, par in byfrom.items():
+            for to, ts in par.ts.items():
+                ts_entry(("transfer", name, frm, to), "transfer", ts)
+    for name, byfrom in ps.interactions.items():
+        for frm, par in byfrom.items():
+            for to, ts in par.ts.items():
+                ts_entry(("interaction", name, frm, to), "interaction", ts)
+    if pg is not None:
+        for pname in pg.programs.keys():
+            for attr in ("spend_data", "unit_cost", "capacity_constraint", "saturation", "coverage"):
+                ts_entry(("program", pname, attr), attr, getattr(pg.programs[pname], attr))
+        for ckey in pg.covouts.keys():
+            c = pg.covouts[ckey]
+            for k, v in c.progs.items():
+                out[("outcome", ckey, k)] = ("outcome", c.sigma, float(v), vclass(c.sigma, [float(v)]))
+            for k, v in getattr(c, "_interactions", {}).items():
+                out[("interaction-outcome", ckey, tuple(sorted(k)))] = ("interaction-outcome", c.sigma, float(v), vclass(c.sigma, [float(v)]))
+    return out
 
 
 def progset_inputs_digest(pg):
@@ -384,6 +521,10 @@ def lib_sources(draw, unc):
     if unc == "init":
         src["init"] = [[draw(st.integers(0, 4)), draw(st.sampled_from(LIB_INIT_Z))]]
         return src
+    if unc == "edge":
+        src["edge"] = [[i, draw(st.sampled_from(EDGE_KINDS)), draw(st.sampled_from([0.05, 0.2]))] for i in draw(st.lists(st.integers(0, 5), min_size=1, max_size=2, unique=True))]
+        unc = draw(st.sampled_from(["par", "both"]))
+        progs = src["progs"] = progs or unc == "both"
     low = [None, 0.0] if unc != "none" else [None]
     sig = st.sampled_from(RELS).map(lambda r: {"rel": r})
     npar = 6
